@@ -35,14 +35,37 @@
      bytes produced are the specified content, and the bytes consumed are exactly that frame.
      Any capacity, NULL destination, stableDst; both the direct path and the staged-header
      path (inputs shorter than maxFHSize); direct decoding and decoding through tmpOut.
-   Partial (see the _full_statement below): equality of the verdict with Spec.frame_decode
-   on the concatenation for ALL chunkings (calls that stop in the middle of a frame and
-   resume from the staging buffers) is NOT proved at model level; it is checked on the real
-   code by the harness (same verdict under every chunking, complete => content equals the
-   extracted Spec.frame_decode), and the per-call tie makes the model follow the code. *)
+   - C08_chunking_sound: "never falsely succeeds" for RESUMED calls.  From a context at the
+     start of a frame, for ANY split of the input into pieces and ANY capacities (>= 0), with the
+     documented protocol (what a call does not consume is offered again): if the sequence of
+     calls reports completion, then Spec.frame_decode accepts the input (checksums modulo
+     skipChecksums as Spec's skip flag), the concatenation of the outputs of all calls is the
+     specified content and the total consumed is the length of the frame (or the input begins
+     with a skippable frame - magic 0x184D2A5x, 4-byte size n - nothing was produced and exactly
+     its 8 + n bytes were consumed).
+   - C08_chunking_complete / C08_chunking_reaches / C08_chunking_independent: the converse.  On an
+     input that Spec.frame_decode accepts with every checksum verified, from a context at the
+     start of a frame, whatever the pieces, the capacities and skipChecksums: NO call fails; when
+     the calls end the verdict is the specification's (content, frame length); and they do end -
+     with pieces of >= 1 byte and capacities >= 1, |input| + |content| + 1 calls always suffice
+     (each call that does not end the frame consumes or produces a byte; when the input is
+     exhausted only the end of the frame can be left).  Hence verdict and content are
+     independent of the chunking: C08_chunking_independent proves the statement
+     C08_chunking_independent_full_statement that earlier rounds left open.
+     C08_chunking_*_usingDict: the same for LZ4F_decompress_usingDict (the dictionary is
+     re-installed at every call made before the frame's blocks start, as the C code does).
+     Proof (Proofs/FrameDChunk.v): a two-way simulation between the staged state (dStage, the
+     prefixes held in header[] / tmpIn[], the not yet flushed part of tmpOut, running hashes,
+     history, remaining size) and a position in frame_decode's parse of the whole frame.
+     Invariant CInv p O s, p = bytes consumed, O = bytes produced since the start of the frame,
+     with a continuation clause Kc p E: "p followed by any g with E skip g res is accepted by the
+     specification with result res" and "if p ++ g is accepted with all checksums verified then
+     E false g res"; proved stage by stage; every error return of the stage machine is
+     justified by "the specification rejects every continuation"; hints are shown >= 0.
+     The block decoder stays a parameter (the same function in model and specification). *)
 From Coq Require Import ZArith List Lia Bool.
 From LZ4V Require Import Spec.BlockSpec Spec.XXH32 Spec.FrameSpec Gen.Consts Model.FrameD.
-From LZ4V Require Import Proofs.FrameDHeader Proofs.FrameDProofs Proofs.FrameDSound.
+From LZ4V Require Import Proofs.FrameDHeader Proofs.FrameDProofs Proofs.FrameDSound Proofs.FrameDChunk.
 Import ListNotations.
 Local Open Scope Z_scope.
 
@@ -117,19 +140,78 @@ Theorem C08_complete_sound_oneshot_usingDict : forall bdec s0 data cap dict o,
 Proof. exact oneshot_sound_usingDict. Qed.
 Print Assumptions C08_complete_sound_oneshot_usingDict.
 
-(* ---- the part that is not proved at model level ---- *)
-(* drive a byte string through the model in pieces: chunk sizes [ns], capacities [caps] *)
-Inductive verdict := VComplete (content : list byte) (consumed : Z) | VError | VMore.
-Fixpoint drive (bdec : list byte -> list byte -> option (list byte)) (o : dopts) (fuel : nat)
-         (s : dstate) (data : list byte) (ns caps : list Z) (acc : list byte) (pos : Z) : verdict :=
-  match fuel, ns, caps with
-  | S f, n :: ns', cap :: caps' =>
-      let '(s', r) := decompress bdec s (ztake n data) cap o in
-      if r_ret r <? 0 then VError
-      else if r_ret r =? 0 then VComplete (acc ++ r_out r) (pos + r_consumed r)
-      else drive bdec o f s' (zdrop (r_consumed r) data) ns' caps' (acc ++ r_out r) (pos + r_consumed r)
-  | _, _, _ => VMore
-  end.
+(* soundness under chunking ([drive] : Proofs/FrameDChunk.v - the input offered in pieces of sizes
+   [ns] with capacities [caps], what a call does not consume is offered again) *)
+Theorem C08_chunking_sound : forall bdec o dict k s data ns caps content consumed,
+  wf s -> d_stage s = GetFrameHeader -> d_remaining s = 0 -> d_hist s = dict -> d_skip s = false ->
+  bytes_ok data = true -> Forall (fun c => 0 <= c) caps ->
+  drive bdec o k s data ns caps [] 0 = VComplete content consumed ->
+  zlen content < 18446744073709551616 ->
+  (exists rest, frame_decode bdec (o_skip o) dict data = Some (content, rest) /\ consumed = zlen data - zlen rest)
+  \/ (content = [] /\ Z.land (rd32 data) SKIP_MASK = FD_MAGIC_SKIPPABLE_START /\
+      consumed = 8 + rd32 (zdrop 4 data) /\ consumed <= zlen data).
+Proof. exact chunked_sound. Qed.
+Print Assumptions C08_chunking_sound.
+
+(* completeness under chunking: no call fails on a valid frame (all checksums right), whatever
+   skipChecksums, and when the calls end the verdict is the specification's *)
+Theorem C08_chunking_complete : forall bdec o dict k s data ns caps content rest,
+  wf s -> d_stage s = GetFrameHeader -> d_remaining s = 0 -> d_hist s = dict -> d_skip s = false ->
+  bytes_ok data = true -> Forall (fun c => 0 <= c) caps ->
+  frame_decode bdec false dict data = Some (content, rest) ->
+  drive bdec o k s data ns caps [] 0 <> VError /\
+  (drive bdec o k s data ns caps [] 0 <> VMore ->
+   drive bdec o k s data ns caps [] 0 = VComplete content (zlen data - zlen rest)).
+Proof. exact chunked_complete. Qed.
+Print Assumptions C08_chunking_complete.
+
+(* ... and they do end: any pieces >= 1 byte, any capacities >= 1, |input| + |content| + 1 calls *)
+Theorem C08_chunking_reaches : forall bdec o dict s data ns caps content rest,
+  o_dstnull o = false ->
+  wf s -> d_stage s = GetFrameHeader -> d_remaining s = 0 -> d_hist s = dict -> d_skip s = false ->
+  bytes_ok data = true -> Forall (fun n => 1 <= n) ns -> Forall (fun c => 1 <= c) caps ->
+  frame_decode bdec false dict data = Some (content, rest) ->
+  let K := Z.to_nat (zlen data + zlen content + 1) in
+  (K <= length ns)%nat -> (K <= length caps)%nat ->
+  drive bdec o K s data ns caps [] 0 = VComplete content (zlen data - zlen rest).
+Proof. exact chunked_reaches. Qed.
+Print Assumptions C08_chunking_reaches.
+
+(* the same three statements for LZ4F_decompress_usingDict (the same dictionary at every call;
+   [drive_usingDict] : Proofs/FrameDChunk.v) *)
+Theorem C08_chunking_sound_usingDict : forall bdec o dict k s data ns caps content consumed,
+  wf s -> d_stage s = GetFrameHeader -> d_remaining s = 0 -> d_skip s = false ->
+  bytes_ok data = true -> Forall (fun c => 0 <= c) caps ->
+  drive_usingDict bdec dict o k s data ns caps [] 0 = VComplete content consumed ->
+  zlen content < 18446744073709551616 ->
+  (exists rest, frame_decode bdec (o_skip o) dict data = Some (content, rest) /\ consumed = zlen data - zlen rest)
+  \/ (content = [] /\ Z.land (rd32 data) SKIP_MASK = FD_MAGIC_SKIPPABLE_START /\
+      consumed = 8 + rd32 (zdrop 4 data) /\ consumed <= zlen data).
+Proof. exact chunked_sound_usingDict. Qed.
+Print Assumptions C08_chunking_sound_usingDict.
+
+Theorem C08_chunking_complete_usingDict : forall bdec o dict k s data ns caps content rest,
+  wf s -> d_stage s = GetFrameHeader -> d_remaining s = 0 -> d_skip s = false ->
+  bytes_ok data = true -> Forall (fun c => 0 <= c) caps ->
+  frame_decode bdec false dict data = Some (content, rest) ->
+  drive_usingDict bdec dict o k s data ns caps [] 0 <> VError /\
+  (drive_usingDict bdec dict o k s data ns caps [] 0 <> VMore ->
+   drive_usingDict bdec dict o k s data ns caps [] 0 = VComplete content (zlen data - zlen rest)).
+Proof. exact chunked_complete_usingDict. Qed.
+Print Assumptions C08_chunking_complete_usingDict.
+
+Theorem C08_chunking_reaches_usingDict : forall bdec o dict s data ns caps content rest,
+  o_dstnull o = false ->
+  wf s -> d_stage s = GetFrameHeader -> d_remaining s = 0 -> d_skip s = false ->
+  bytes_ok data = true -> Forall (fun n => 1 <= n) ns -> Forall (fun c => 1 <= c) caps ->
+  frame_decode bdec false dict data = Some (content, rest) ->
+  let K := Z.to_nat (zlen data + zlen content + 1) in
+  (K <= length ns)%nat -> (K <= length caps)%nat ->
+  drive_usingDict bdec dict o K s data ns caps [] 0 = VComplete content (zlen data - zlen rest).
+Proof. exact chunked_reaches_usingDict. Qed.
+Print Assumptions C08_chunking_reaches_usingDict.
+
+(* ---- the statement that earlier rounds left open ---- *)
 (* (the frame is valid with ALL checksums verified: under skipChecksums the code - and the model -
    still verifies the checksum of compressed blocks, see C08_example_skip_asymmetry) *)
 Definition C08_chunking_independent_full_statement : Prop :=
@@ -141,6 +223,9 @@ Definition C08_chunking_independent_full_statement : Prop :=
     (exists k, drive bdec (mkO false skip false) k dctx_init data ns caps [] 0 <> VMore) ->
     exists k, drive bdec (mkO false skip false) k dctx_init data ns caps [] 0
               = VComplete content (zlen data - zlen rest).
+Theorem C08_chunking_independent : C08_chunking_independent_full_statement.
+Proof. exact chunked_independent. Qed.
+Print Assumptions C08_chunking_independent.
 
 (* ---- the hypotheses are satisfiable, on non-trivial states ---- *)
 (* a frame with content size and content checksum, one uncompressed block "abc", fed in two
@@ -161,6 +246,46 @@ Proof.
   vm_compute. repeat split; try reflexivity; auto;
     try (right; exists 65536; repeat split; auto; try (left; reflexivity)); try lia; try discriminate.
 Qed.
+
+(* the chunked theorem applies: the same frame in three pieces, capacity 2 *)
+Example C08_example_chunked :
+  let hdr := [4; 34; 77; 24; 108; 64; 3; 0; 0; 0; 0; 0; 0; 0; 41] in
+  let body := [3; 0; 0; 128; 97; 98; 99; 0; 0; 0; 0] in
+  let crc := le_bytes 4 (xxh32 0 [97; 98; 99]) in
+  let data := hdr ++ body ++ crc ++ [9; 9] in
+  drive spec_decode (mkO false false false) 3 dctx_init data [17; 13; 11] [2; 2; 2] [] 0 = VComplete [97; 98; 99] 30
+  /\ frame_decode spec_decode false [] data = Some ([97; 98; 99], [9; 9]).
+Proof. vm_compute. split; reflexivity. Qed.
+
+(* the completeness theorems apply: a valid frame, 1-byte pieces, capacity 1: 36 calls suffice
+   (also with skipChecksums on) *)
+Example C08_example_reaches :
+  let hdr := [4; 34; 77; 24; 108; 64; 3; 0; 0; 0; 0; 0; 0; 0; 41] in
+  let body := [3; 0; 0; 128; 97; 98; 99; 0; 0; 0; 0] in
+  let crc := le_bytes 4 (xxh32 0 [97; 98; 99]) in
+  let data := hdr ++ body ++ crc ++ [9; 9] in
+  frame_decode spec_decode false [] data = Some ([97; 98; 99], [9; 9]) /\
+  Z.to_nat (zlen data + zlen [97; 98; 99] + 1) = 36%nat /\
+  drive spec_decode (mkO false false false) 36 dctx_init data (repeat 1 36) (repeat 1 36) [] 0 = VComplete [97; 98; 99] 30 /\
+  drive spec_decode (mkO false true false) 36 dctx_init data (repeat 1 36) (repeat 1 36) [] 0 = VComplete [97; 98; 99] 30.
+Proof. vm_compute. repeat split; reflexivity. Qed.
+
+(* with a dictionary: a compressed block whose match reaches into the dictionary, 1-byte pieces *)
+Example C08_example_chunked_usingDict :
+  let dict := [1; 2; 3; 4; 5; 6; 7; 8] in
+  let blk := [0x10; 122; 5; 0; 0x10; 33] in
+  let data := [4; 34; 77; 24; 96; 64; header_checksum [96; 64]] ++ le_bytes 4 6 ++ blk ++ [0; 0; 0; 0] in
+  frame_decode spec_decode false dict data = Some ([122; 5; 6; 7; 8; 33], []) /\
+  drive_usingDict spec_decode dict (mkO false false false) 40 dctx_init data (repeat 1 40) (repeat 1 40) [] 0
+  = VComplete [122; 5; 6; 7; 8; 33] (zlen data).
+Proof. vm_compute. split; reflexivity. Qed.
+
+(* a skippable frame (5 bytes of payload) in pieces of 3 bytes: nothing produced, 13 bytes consumed *)
+Example C08_example_chunked_skippable :
+  let data := [0x53; 0x2A; 0x4D; 0x18; 5; 0; 0; 0; 1; 2; 3; 4; 5; 4; 34; 77; 24] in
+  drive spec_decode (mkO false false false) 9 dctx_init data (repeat 3 9) (repeat 1 9) [] 0 = VComplete [] 13 /\
+  Z.land (rd32 data) SKIP_MASK = FD_MAGIC_SKIPPABLE_START /\ 8 + rd32 (zdrop 4 data) = 13.
+Proof. vm_compute. repeat split; reflexivity. Qed.
 
 Example C08_example_header :
   parse_desc [108; 64; 3; 0; 0; 0; 0; 0; 0; 0; 41]
